@@ -16,7 +16,7 @@ let sv_rule_names = [
   "input_nonempty"; "input_field_types"; "input_no_nonnull_cycle";
   "dirdef_arg_types"; "dirdef_no_self_ref"; "builtin_redefinition";
   "dir_defined"; "dir_location"; "dir_unique"; "dir_known_args";
-  "dir_arg_unique"; "dir_required_args"; "dir_arg_values";
+  "dir_arg_unique"; "dir_required_args"; "dir_arg_input_fields_unique"; "dir_arg_values";
   "default_values" ]
 
 let params_of (flags : string) : sv_params =
@@ -38,17 +38,35 @@ let verdict_line p nbuild s =
   if v <> (failed = []) then failwith "verdict does not decompose";
   if v then "valid" else "invalid rules=" ^ String.concat "," failed
 
+(* the pristine built-in definitions (dump of Schema::new()), read once from the file named by C14_BUILTINS;
+   a case marked P carries only the user's definitions and is completed with them, a case marked F is a full dump *)
+let pristine : schema Lazy.t = lazy (
+  let path = try Sys.getenv "C14_BUILTINS" with Not_found -> failwith "C14_BUILTINS not set" in
+  let ic = open_in path in
+  let line = input_line ic in
+  close_in ic;
+  Lib_schema.schema_of_string line)
+
+let schema_of_transport (mark : string) (dump : string) : schema =
+  let s = Lib_schema.schema_of_string dump in
+  match mark with
+  | "F" -> s
+  | "P" ->
+    let b = Lazy.force pristine in
+    { sch_def = s.sch_def; sch_dirdefs = b.sch_dirdefs @ s.sch_dirdefs; sch_types = b.sch_types @ s.sch_types }
+  | _ -> failwith "transport mark"
+
 let c14_validate (line : string) : string =
   match String.split_on_char ' ' line with
-  | [_src; nbuild; dump] ->
-    verdict_line sv_apollo_params (int_of_string nbuild) (Lib_schema.schema_of_string dump)
+  | [_src; nbuild; mark; dump] ->
+    verdict_line sv_apollo_params (int_of_string nbuild) (schema_of_transport mark dump)
   | _ -> failwith "c14_validate line"
 
 (* `<flags> <hex source> <number of build errors> <schema dump>`: the verdict under other parameters *)
 let c14_validate_params (line : string) : string =
   match String.split_on_char ' ' line with
-  | [flags; _src; nbuild; dump] ->
-    verdict_line (params_of flags) (int_of_string nbuild) (Lib_schema.schema_of_string dump)
+  | [flags; _src; nbuild; mark; dump] ->
+    verdict_line (params_of flags) (int_of_string nbuild) (schema_of_transport mark dump)
   | _ -> failwith "c14_validate_params line"
 
 let families = [ ("c14_validate", c14_validate); ("c14_validate_params", c14_validate_params) ]
